@@ -227,7 +227,7 @@ def run_big_case(sh):
 
 
 IFC_NAMES = ["bus", "regs", "ss", "as_", "ps", "bu", "ifc", "xs", "us"]
-PORT_NAMES = ["y", "s", "en", "x", "s_y", "ys", "sy"]
+PORT_NAMES = ["y", "s", "en", "x", "s_y", "ys", "sy", "clk", "reset", "clk", "reset"]          # data ports may be CALLED clk / reset
 
 
 def gen_ifc_design(rng):
@@ -235,7 +235,7 @@ def gen_ifc_design(rng):
   chosen so that one name is a prefix / suffix / substring of another (bus.y next to a plain port 'buy', interface 's'-endings).
   -> (source, {signal path: (width, host component path)}, [(top-level input path, width)])"""
   W = rng.choice([2, 4, 8])
-  pin0, pin1, pout = rng.sample(PORT_NAMES, 3)
+  pin0, pin1, pout = rng.sample(sorted(set(PORT_NAMES)), 3) if rng.random() < 0.5 else rng.sample(["clk", "reset", "y", "s"], 3)
   names = rng.sample(IFC_NAMES, 3)
   top_scalar, top_list, child_ifc = names
   L = ["from pymtl3 import *", "class XI(Interface):", "  def construct(s, W):",
@@ -324,8 +324,12 @@ def run_ifc_case(sh, case):
     extra = sorted(set(byname) - set(exp.values()))
     if extra:
       sh.violation("vcd-declares-vars-that-are-not-signals-of-the-design", {"extra": extra[:5], "design_source": src}, case=("ifc", case)); return
+    ser_clk = changes.get(byname[exp["s.clk"]][1], [])
+    for t in range(ncyc):
+      if vcdparse.value_at(ser_clk, 100 * t) != 1 or vcdparse.value_at(ser_clk, 100 * t + 50) != 0:
+        sh.violation("clock-does-not-toggle-once-per-cycle", {"cycle": t, "design_source": src}, case=("ifc", case)); return
     for pth in paths:
-      if pth.endswith(".clk") or pth == "s.clk": continue
+      if pth == sigs[pth][1] + ".clk": continue          # the clock of a component (a data port of an interface may be CALLED clk)
       ser = changes.get(byname[exp[pth]][1], [])
       for t in range(ncyc):
         sh.count("ifc_signal_cycle_comparisons")
